@@ -175,6 +175,24 @@ def run_reflection(case):
       e *= 1 - k * k
     if fr(filt.error) != e:
       return bad("parcor:error", "error != r0 * prod(1 - k_m^2)", e, filt.error, nt)
+    # the lags as a tuple (any sequence), and the caller's list left as it was - also after a call with an
+    # order beyond the lags given (which zero-extends them)
+    rl = [Q(v) for v in r]
+    try:
+      ft = levinson_durbin(tuple(rl))
+      if [fr(k) for k in parcor(ft)] != exp or fr(ft.error) != e:
+        return bad("parcor:levinson-tuple", "levinson_durbin of the lags given as a tuple differs from the list's", exp,
+                   [fr(k) for k in parcor(ft)], nt)
+    except Exception as exc:
+      return bad("parcor:levinson-tuple", "levinson_durbin raised for lags given as a tuple", exp, repr(exc)[:160], nt)
+    for order in (len(rl) - 1, len(rl), len(rl) + 2):
+      try:
+        levinson_durbin(rl, order)
+      except (ParCorError, ZeroDivisionError):
+        pass
+      if [fr(v) for v in rl] != [F(v) for v in r]:
+        return bad("levinson:argument-changed", "levinson_durbin(r, %d) changed the caller's list of lags" % order,
+                   [str(F(v)) for v in r], [str(fr(v)) for v in rl], nt)
   # stability from reflection coefficients (Schur-Cohn): stable iff all |k| < 1
   den = ZFilter([Q(1)], [Q(v) * Q(g) for v in a])
   st = parcor_stable(den)
@@ -283,10 +301,14 @@ def run_plain(case):
     den = [float(v) * g for v in poly]
     if isinstance(g, int) and all(F(v).denominator == 1 for v in poly):
       den = [int(v) * g for v in poly]
-    for numer in ([1], [2., -1.]):
+    variants = [den]
+    if g in (1, 2, -3, 0.5, -0.7, 10.0):
+      # the same real coefficients typed complex (what multiplying conjugate-pair sections in complex arithmetic gives)
+      variants.append([complex(v, 0.0) for v in den])
+    for numer, den_ in [(nm, dn) for dn in variants for nm in ([1], [2., -1.])]:
       n += 1
       try:
-        st = parcor_stable(ZFilter(list(numer), list(den)))
+        st = parcor_stable(ZFilter(list(numer), list(den_)))
       except Exception as exc:
         return bad("stable:exception:" + type(exc).__name__, "parcor_stable raised for plain int/float coefficients",
                    {"stable": inside, "poles": combo, "gain": g}, str(exc)[:200], True)
